@@ -2,7 +2,7 @@ import PcbV.Model.Cassette
 namespace PcbV.Drv.C29
 open PcbV PcbV.Cassette
 
-/-  Request: `<fixed:0|1><skipBody:0|1> op;op;…` — a whole tape history in one line.
+/-  Request: `<fixed:0|1><skipBody:0|1><rel:0|1> op;op;…` — a whole tape history in one line.
     ops:  ow,<namehex>,<type letter value>,<seg>,<offs>,<len>   open for output
           w,<hex>                                               CassetteStream.write
           c                                                     close the BASIC file
@@ -18,7 +18,7 @@ def showMsg (m : Msg) : String :=
 def showTape (t : Tape) : String :=
   if t.isEmpty then "t:-" else "t:" ++ "/".intercalate (t.map fun r => toString r.length ++ "x" ++ toHex r.flatten)
 
-def step (fixed skip : Bool) (s : St) (op : String) : St × String :=
+def step (fixed skip rel : Bool) (s : St) (op : String) : St × String :=
   match op.splitOn "," with
   | ["ow", name, ft, seg, offs, len] =>
     match ofHex name, ft.toNat?, seg.toNat?, offs.toNat?, len.toNat? with
@@ -36,7 +36,7 @@ def step (fixed skip : Bool) (s : St) (op : String) : St × String :=
   | ["or", name, types] =>
     match ofHex name, ofHex types with
     | some name, some types =>
-      let (ms, s', r) := openInput skip s name types
+      let (ms, s', r) := openInput skip rel s name types
       let tail := match r with
         | .ok _ => ""
         | .error e => ",e" ++ toString e
@@ -56,15 +56,15 @@ def step (fixed skip : Bool) (s : St) (op : String) : St × String :=
   | ["t"] => (s, showTape s.tape)
   | _ => (s, "bad-op")
 
-def runOps (fixed skip : Bool) : St → List String → List String
+def runOps (fixed skip rel : Bool) : St → List String → List String
   | _, [] => []
-  | s, op :: ops => let (s', out) := step fixed skip s op; out :: runOps fixed skip s' ops
+  | s, op :: ops => let (s', out) := step fixed skip rel s op; out :: runOps fixed skip rel s' ops
 
 def handle : List String → String
   | [flags, ops] =>
     match flags.toList with
-    | [a, b] =>
-      " ".intercalate (runOps (a == '1') (b == '1') (attach []) (ops.splitOn ";"))
+    | [a, b, c] =>
+      " ".intercalate (runOps (a == '1') (b == '1') (c == '1') (attach []) (ops.splitOn ";"))
     | _ => "bad-op"
   | _ => "bad-op"
 
